@@ -24,7 +24,7 @@ def cell_tree(c):
 ALIAS = {
     'seq_no': ['seq_no', 'seqno'], 'rest': [''], 'a': [''], 'b': [''], 'state_init': ['state_init', ''],
     'storage_ph': ['storage_ph', 'storage'], 'credit_ph': ['credit_ph', 'credit'], 'compute_ph': ['compute_ph', 'compute'],
-    'cc': [''], 'prev': ['prev', ''], 'master': ['master', ''], 'blk_ref': ['blk_ref', ''], 'vert_seq_no': ['vert_seq_no', 'vert_seqno'],
+    'cc': [''], 'r1': [''], 'prev': ['prev', ''], 'master': ['master', ''], 'blk_ref': ['blk_ref', ''], 'vert_seq_no': ['vert_seq_no', 'vert_seqno'],
 }
 # schema fields the library reads but does not expose (nothing to compare)
 UNEXPOSED = {('CatchainConfig', 'flags')}
@@ -103,46 +103,87 @@ def norm(kind, expected, val):
     return {'skip': 1}
 
 
+def _dict_of(cur):
+    """the mapping inside a parsed dictionary value: plain dict, wrapper with .dict, (dict, extras) pair of an augmented
+    dictionary, or a list (keys dropped by the library: positions stand in for them)"""
+    if isinstance(cur, tuple) and len(cur) == 2 and isinstance(cur[0], dict):
+        return cur[0], True
+    d = getattr(cur, 'dict', cur)
+    if d is None:
+        return {}, True
+    if isinstance(d, list):
+        return dict(enumerate(d)), False          # keys are not observable
+    return d, True
+
+
+def walk(obj, path, cursors, ty=None):
+    """-> (found, value) following block.tlb field names (with ALIAS) and dictionary cursors"""
+    cur = obj
+    i = 0
+    while i < len(path):
+        name = path[i]
+        if name in ('#key', '#val'):
+            pre = tuple(path[:i])
+            if pre not in cursors:
+                d, keyed = _dict_of(cur)
+                if not isinstance(d, dict):
+                    return False, None
+                cursors[pre] = [d, sorted(d), -1, keyed]
+            c = cursors[pre]
+            if name == '#key' and i == len(path) - 1:
+                c[2] += 1
+            if c[2] >= len(c[1]):
+                return False, None
+            if name == '#key':
+                cur = c[1][c[2]] if c[3] else KeyHidden
+            else:
+                cur = c[0][c[1][c[2]]]
+        else:
+            ok, cur = get_attr(cur, name)
+            if not ok:
+                return False, None
+            if cur is None and i < len(path) - 1:
+                return True, None                  # an absent object on the way: everything below is absent
+        i += 1
+    return True, cur
+
+
+class KeyHidden:
+    pass
+
+
 def observe(obj, flat, ty=None):
     """-> list of abstract values, one per leaf, found by walking the library object along the leaf's path"""
     out = []
-    cursors = {}             # path prefix -> [dict, sorted keys, index]
+    cursors = {}             # path prefix -> [dict, sorted keys, index, keys observable]
     for leaf in flat:
         path, kind = leaf['path'], leaf['k']
-        if kind == 'Ctor' or (ty, path[-1] if path else '') in UNEXPOSED:
+        if (ty, path[-1] if path else '') in UNEXPOSED:
             out.append({'skip': 1})
             continue
-        cur, ok = obj, True
-        i = 0
-        while i < len(path):
-            name = path[i]
-            if name in ('#key', '#val'):
-                pre = tuple(path[:i])
-                if pre not in cursors:
-                    d = getattr(cur, 'dict', cur) or {}
-                    if isinstance(d, list):
-                        d = dict(enumerate(d))
-                    cursors[pre] = [d, sorted(d), -1]
-                c = cursors[pre]
-                if name == '#key' and i == len(path) - 1:
-                    c[2] += 1
-                if c[2] >= len(c[1]):
-                    ok = False
-                    break
-                cur = c[1][c[2]] if name == '#key' else c[0][c[1][c[2]]]
-            else:
-                ok, cur = get_attr(cur, name)
-                if not ok:
-                    break
-                if cur is None and i < len(path) - 1:
-                    break
-            i += 1
+        ok, cur = walk(obj, path, cursors, ty)
         if not ok:
             out.append({'missing': 1})
+        elif kind == 'Ctor':
+            if cur is None:
+                out.append({'none': 1})
+            elif isinstance(getattr(cur, 'type_', None), str):
+                out.append({'label': cur.type_})
+            else:
+                out.append({'skip': 1})
         elif kind == 'Count':
+            if isinstance(cur, tuple) and len(cur) == 2 and isinstance(cur[0], dict):
+                cur = cur[0]
             out.append(norm('Count', leaf['a'], cur))
         elif kind == 'Key':
-            out.append({'int': big(int(cur))})
+            out.append({'skip': 1} if cur is KeyHidden else {'int': big(int(cur))})
+        elif kind == 'AugExtras':
+            ex = cur[1] if isinstance(cur, tuple) and len(cur) == 2 else None
+            if not isinstance(ex, list):
+                out.append({'unexpected': type(cur).__name__})
+            else:
+                want = leaf['a']['extras']
+                out.append({'extras': [observe(e, want[j], None) if j < len(want) else [] for j, e in enumerate(ex)]})
         elif kind == 'VarU' and path and path[-1] == 'grams' and not isinstance(cur, int):
             out.append(norm('VarU', leaf['a'], getattr(cur, 'grams', cur)))
         else:
